@@ -450,6 +450,11 @@ def fix_reimported_names(source: str) -> str:
 
             referenced_name = asname if asname else name
 
+            if name == "*":
+                # A star import of a module that itself contains a star import is not a re-import
+                node_names.append(alias)
+                continue
+
             if trace_result := trace_origin(name, module_source, __all__=True):
                 *_, module_import_node = trace_result
                 if isinstance(module_import_node, ast.ImportFrom):
